@@ -1,7 +1,8 @@
 (* C01 — programs evaluate to the result ES5 prescribes (statement-level
-   control flow of the MiniJS fragment: blocks, if, while, labelled
-   statements, break/continue/return/throw, try/catch/finally, over an
-   expression language with assignment, ++, && || ?:, host calls).
+   control flow of the MiniJS fragment: blocks, if, while, do-while, for,
+   switch, labelled statements, break/continue/return/throw,
+   try/catch/finally, over an expression language with assignment, ++,
+   && || ?:, host calls).
    OttoSem = exec_o (cmpl_evaluate_statement.go: completions as result
    values, the runtime-global rt.labels list); SpecSem = exec_s (ES5 12.x
    completion records, label sets).  Proofs: C01/Sim.v, C01/Proofs.v. *)
@@ -88,3 +89,10 @@ Proof. vm_compute. reflexivity. Qed.
 Example C01_guard_met : wf (SBlock w_wf) = true /\
   run_o 100 [10%nat] 0 w_wf = (mkst [(10%nat, VNum 2)] [VNum 1; VNum 2] 44 0 None, [], OReturned (VNum 2)).
 Proof. exact w_wf_ok. Qed.
+
+(* non-vacuity for the other statement forms: for (all parts / none, empty body), do-while, a labelled
+   switch with fall-through, default in the middle, a side-effecting case expression, break out of a nested loop *)
+Example C01_guard_met_loops_switch : wf (SBlock w_wf2) = true /\
+  (let '(s, L, o) := run_o 400 [10%nat; 11%nat] 0 w_wf2 in (out s, L, o)) =
+    ([VNum 100; VNum 200; VNum 9; VNum 200; VNum 9; VNum 300], [], OReturned (VNum 3)).
+Proof. exact w_wf2_ok. Qed.
